@@ -152,6 +152,8 @@ def gen_coq():
 def coq_make(targets, timeout=1800):
     """make -k the given .vo targets.  Returns (ok, log, failures) with
     failures = [(file, line, nearest statement name, message)]."""
+    os.makedirs(os.path.join(VERIF, 'ocaml', 'gen'), exist_ok=True)      # Extract.v writes there; the directory is git-ignored
+    os.makedirs(os.path.join(COQ, 'Gen'), exist_ok=True)
     with Lock('coq'):
         if not os.path.exists(os.path.join(COQ, 'Makefile')) or \
            os.path.getmtime(os.path.join(COQ, 'Makefile')) < os.path.getmtime(os.path.join(COQ, '_CoqProject')):
